@@ -18,7 +18,7 @@ From HV Require Import Base.Res Base.Str Base.C14Base Gen.ComplianceTables Model
      Proofs.C14Ex_8_0_0 Proofs.C14Ex_8_1_0 Proofs.C14Ex_8_2_0 Proofs.C14Ex_8_3_0
      Proofs.C14Ex_score_1_1_0 Proofs.C14Ex_score_2_0_0
      Proofs.C14Ex_testlib_2_0_0 Proofs.C14Ex_testlib_2_1_0 Proofs.C14Ex_testlib_3_0_0
-     Proofs.C14Ex_Seeded830 Proofs.C14Ex_SeededScore.
+     Proofs.C14Ex_Seeded830 Proofs.C14Ex_SeededScore Proofs.C14Ex_SeedLemma.
 From HV Require Gen.Schema_8_0_0_c14 Gen.Schema_8_1_0_c14 Gen.Schema_8_2_0_c14 Gen.Schema_8_3_0_c14
      Gen.Schema_score_1_1_0_c14 Gen.Schema_score_2_0_0_c14 Gen.Schema_testlib_2_0_0_c14
      Gen.Schema_testlib_2_1_0_c14 Gen.Schema_testlib_3_0_0_c14.
@@ -275,9 +275,9 @@ Print Assumptions C14_default_units_rule_applies.
      * three seeded bundled schemas are taken THROUGH the theorems, every premise established by kernel
        evaluation: C14_seeded_examples_through_theorems (foreign inLibrary, undeclared defaultUnits = the old
        C14-F1 witness, out-of-range hedId on a nested library tag = the old C14-F2 witness).
-   NOT PROVED: that the record [load E S'] of the seeded XML stands in the relation [one_attribute_seed] to
-   [load E S] (a statement about the loader; the loader is tied to the implementation by the correspondence run
-   and, for these examples, by evaluation).  The duplicate-node seed adds an entry rather than an attribute and
+   NOT PROVED IN GENERAL: that the record [load E S'] of the seeded XML stands in the relation
+   [one_attribute_seed] to [load E S] (a statement about the loader).  It is DECIDED by evaluation for given S, S'
+   (C14_seed_relation_decided) and exhibited for one instance (C14_seed_preservation_instance).  The duplicate-node seed adds an entry rather than an attribute and
    is not covered by the preservation lemma.
 
    SEVERITY.  Conclusions are stated with warnings ON.  By C14_attribute_findings_are_warnings every finding of an
@@ -317,6 +317,28 @@ Theorem C14_seed_preserves_checkable : forall E L L' sec e e' a,
   checkable E L'.
 Proof. exact seed_preserves_checkable. Qed.
 Print Assumptions C14_seed_preserves_checkable.
+
+(* AN INSTANCE of the relation [one_attribute_seed], used through the preservation lemma: 8.3.0 and 8.3.0 with the
+   attribute takesValue (declared for tags only) added to the unit modifier "deca".  The relation between the two
+   LOADED records is decided by kernel evaluation ([appended_seed_raw]: equalities of closed terms, sound for
+   [one_attribute_seed] by appended_seed_sound); [checkable] of the original is C14_bundled_schemas_checkable;
+   [checkable] of the seeded schema is then DERIVED by C14_seed_preserves_checkable (skip_attribute branch) -- the
+   checker is not evaluated on the seeded schema.  This is the one instance exhibited: the "meets its own rules"
+   branch of the lemma and seeds on tags whose attribute is inherited by child entries (their inherited views
+   change, which the relation as stated does not allow) have no instance. *)
+Theorem C14_seed_relation_decided : forall E S S' sec name a v,
+  (exists L, load E S = Ok L /\ checkable E L) ->
+  appended_seed_raw E S S' sec name a v ->
+  exists L', load E S' = Ok L' /\ checkable E L'.
+Proof. exact checkable_of_appended_seed. Qed.
+Print Assumptions C14_seed_relation_decided.
+
+Theorem C14_seed_preservation_instance :
+  appended_seed_raw env_8_3_0 Gen.Schema_8_3_0_c14.schema seeded_takes_value_on_deca_830
+                    SecUnitModifiers (s2str "deca") HedKey_TakesValue VFlag
+  /\ exists L', load env_8_3_0 seeded_takes_value_on_deca_830 = Ok L' /\ checkable env_8_3_0 L'.
+Proof. exact (conj seed_relation_830_deca ex_checkable_through_seed_lemma). Qed.
+Print Assumptions C14_seed_preservation_instance.
 
 (* three seeded bundled schemas, through C14_seeded_in_library / C14_seeded_undeclared_attribute /
    C14_seeded_hed_id_range: the conclusion is obtained FROM the theorem, its premises from kernel evaluation *)
